@@ -3,7 +3,7 @@ from ..core import Case
 from ..prop import Prop
 
 ONE_GB = 1 << 30
-SWO = ("lex", "len", "first")          # strict weak orders; lex is total on byte strings
+SWO = ("lex", "rlex", "len", "first")  # strict weak orders; lex / rlex (descending) are total on byte strings
 ANY = ("true", "false", "cyc")         # not strict weak orders: only "a permutation" is promised
 
 
@@ -30,6 +30,8 @@ def overlay(src, old):
 def less_fn(name):
     if name == "lex":
         return lambda a, b: a < b
+    if name == "rlex":
+        return lambda a, b: a > b
     if name == "len":
         return lambda a, b: len(a) < len(b)
     if name == "first":
@@ -256,7 +258,7 @@ class C11(Prop):
             ops += [["offs"], ["slices"], ["iter"], ["bytes"]]
         return Case(cid, "buffer", [mode, cap, auto, maxsz], ops, tags={"slices"} | ({"weak"} if weak else set()))
 
-    def gen_sort(self, rng, cid, count, cmp_):
+    def gen_sort(self, rng, cid, count, cmp_, presorted=None):
         mode = rng.choice(["calloc", "calloc", "mmap"])
         cap = rng.choice([0, 64, 1000, 20000])
         auto = rng.choice([0, 0, 1000, 30000]) if mode == "calloc" else 0
@@ -266,6 +268,25 @@ class C11(Prop):
         pre = rng.choice([0, 0, 1, 5]) if count < 3000 else 0
         for _ in range(pre + count):
             ops.append(["ws", hx(rnd_bytes(rng, rng.randrange(0, maxlen + 1), alphabet))])
+        if presorted and less_fn(cmp_) is not None:
+            # input that is already in order, or almost: in order except for a few elements placed right after an empty
+            # slice, or for a few random swaps (fast paths for sorted input must still sort)
+            import functools
+            lt = less_fn(cmp_)
+            body = sorted((unhx(o[1]) for o in ops[pre:]), key=functools.cmp_to_key(lambda a, b: -1 if lt(a, b) else (1 if lt(b, a) else 0)))
+            if presorted == "afterempty":
+                body = [x for x in body if x != b""]
+                for _ in range(max(1, count // 300)):
+                    if len(body) >= 2:
+                        i = rng.randrange(0, len(body) - 1)
+                        body[i + 1:i + 1] = [b""]           # an empty slice, then an element that belongs further up
+                        body.insert(i + 2, body.pop(rng.randrange(0, i + 1)))
+                body = body[:count] + [b""] * max(0, count - len(body))
+            elif presorted == "swaps":
+                for _ in range(max(1, count // 400)):
+                    i, j = rng.randrange(len(body)), rng.randrange(len(body))
+                    body[i], body[j] = body[j], body[i]
+            ops = ops[:pre] + [["ws", hx(x)] for x in body]
         if pre:
             # sort only the last `count` slices: the boundary is computed from the lengths written
             off = 8
@@ -281,7 +302,7 @@ class C11(Prop):
         ops.append(["iter"])
         ops.append(["bytes"])
         tags = {"sort", "n%d" % count}
-        if cmp_ != "lex":
+        if cmp_ not in ("lex", "rlex"):
             tags.add("weak")
         return Case(cid, "buffer", [mode, cap, auto, 0], ops, tags=tags)
 
@@ -300,6 +321,14 @@ class C11(Prop):
                     cmps.append(rng.choice(["len", "first", "true", "false", "cyc"]))
                 for c in cmps:
                     cases.append(self.gen_sort(rng, "so%d" % k, cnt, c))
+                    k += 1
+        # (3b) input that is already in order or almost, under ascending, descending and length order
+        for cnt in (3, 6, 40, 1024, 1025, 2500):
+            for c in ("lex", "rlex", "len"):
+                cases.append(self.gen_sort(rng, "so%d" % k, cnt, c, presorted=rng.choice(["sorted", "afterempty", "swaps"])))
+                k += 1
+                if cnt <= 40:
+                    cases.append(self.gen_sort(rng, "so%d" % k, cnt, c, presorted="afterempty"))
                     k += 1
         # (4) capacity arithmetic around the 1 GiB clamp of Grow (virtual memory only, a few cases)
         G = 1 << 30
@@ -535,7 +564,7 @@ class C11(Prop):
                                 if lt(b, a):
                                     bad(i, "adjacent inversion after sort %s: %s before %s" % (cmp_, hx(a)[:20], hx(b)[:20]))
                                     break
-                        if cmp_ == "lex" and got[lo:hi] != sorted(before[lo:hi]):
+                        if cmp_ in ("lex", "rlex") and got[lo:hi] != sorted(before[lo:hi], reverse=(cmp_ == "rlex")):
                             bad(i, "bytewise sort result differs from the sorted list")
                         slices = got
                         data = b"".join(len(s).to_bytes(8, "big") + s for s in slices)
